@@ -11,6 +11,7 @@ import AcnProofs.Lemmas.Sessions
 import AcnProofs.Lemmas.SessionsFit
 import AcnProofs.Lemmas.SessionsCharge
 import AcnProofs.Lemmas.SessionsBisect
+import AcnProofs.Lemmas.SessionsMinimal
 import Mathlib.Tactic
 
 namespace Acn.C15
@@ -202,6 +203,43 @@ theorem default_conversion_total (d : Doc K) (offset : Int) (period V mp : K)
   obtain ⟨b, hb⟩ := mkBattery_default_ok _ _ V period mp hen
   rw [hb]
   exact ⟨_, rfl⟩
+
+/-- List level, default batteries: for EVERY list of well-formed documents (`connect ≤ disconnect`,
+    `kWhDelivered ≥ 0`) `get_evs` succeeds, and every session it returns is ordered
+    (`arrival ≤ departure`), respects `max_len`, requests a non-negative energy and owns a battery
+    whose free capacity equals the request. -/
+theorem all_sessions_wellformed_default (start : K) (docs : List (Doc K)) (period V mp : K)
+    (maxLen : Option Int) (ff : Bool) (hp : 0 < period) (hm : 0 ≤ mp)
+    (hL : ∀ L, maxLen = some L → 0 ≤ L)
+    (hdocs : ∀ d ∈ docs, d.connect ≤ d.disconnect ∧ 0 ≤ d.kWh) :
+    ∃ evs, getEvs start docs period V mp maxLen defaultParams ff = .ok evs ∧
+      evs.length = docs.length ∧
+      ∀ e ∈ evs, e.arrival ≤ e.departure ∧ (∀ L, maxLen = some L → e.departure - e.arrival ≤ L) ∧
+        0 ≤ e.requested ∧ e.batt.capacity - e.batt.init = e.requested ∧
+        e.batt.init ≤ e.batt.capacity := by
+  unfold getEvs
+  rw [periodIndex_pos hp]
+  simp only
+  generalize pyTrunc (start / (60 * period)) = offset
+  induction docs with
+  | nil => exact ⟨[], rfl, rfl, by simp⟩
+  | cons d ds ih =>
+    obtain ⟨hd1, hd2⟩ := hdocs d List.mem_cons_self
+    obtain ⟨evs, hevs, hlen, hall⟩ := ih (fun d' hd' => hdocs d' (List.mem_cons_of_mem _ hd'))
+    obtain ⟨e, he⟩ := default_conversion_total d offset period V mp maxLen ff hp hd2 hm hL hd1
+    refine ⟨e :: evs, ?_, by simp [hlen], ?_⟩
+    · rw [convertDocs, he, hevs]
+    · intro e' he'
+      rcases List.mem_cons.mp he' with h | h
+      · subst h
+        have hord := order_preserving d offset period V mp maxLen defaultParams ff e' hp hL hd1 he
+        have hreq := requested_nonneg d offset period V mp maxLen defaultParams ff e' hp hd2 hm hL hd1 he
+        obtain ⟨hfree, -, -⟩ := free_capacity_covers_default d offset period V mp maxLen defaultParams ff e' hp rfl he
+        refine ⟨hord, ?_, hreq, hfree, by linarith⟩
+        intro L hLm
+        subst hLm
+        exact stay_capped d offset period V mp L defaultParams ff e' hp he
+      · exact hall e' h
 
 /-! non-vacuity: a concrete document over ℚ (start 2019-03-10 08:00 UTC, 5-minute periods) -/
 
@@ -470,6 +508,63 @@ theorem free_capacity_covers (d : Doc ℝ) (offset : Int) (period V mp : ℝ) (m
   rw [hc, hi]
   exact ⟨h1, h3, h4, h5, h6⟩
 
+/-- Minimal capacity: the ladder stops at the first capacity that works — every capacity tried
+    before the returned one is too small to hold the request or, charged from EMPTY at full rate
+    for the whole stay, takes less than the request (plus the bisection tolerance `tol·c`). -/
+theorem fit_capacity_minimal (hd : FitDomain caps mr ts tol E T V P) (hts0 : 0 < ts)
+    (h : battCapFn caps mr ts tol fuel E T V P = .ok (cap, init)) :
+    ∃ pre post, caps = pre ++ cap :: post ∧ ∀ c ∈ pre, c < E ∨
+      flowSoc (fitM mr V P c) (fitM mr V P c / (1 - ts)) 0 T * c < E + tol * c := by
+  obtain ⟨pre, post, he, hall⟩ := battCapFn_prefix caps h
+  refine ⟨pre, post, he, ?_⟩
+  intro c hc
+  have hcpos : 0 < c := hd.caps_pos c (by rw [he]; exact List.mem_append_left _ hc)
+  rcases hall c hc with h1 | ⟨i, hi, hneg⟩
+  · exact Or.inl h1
+  · right
+    have := getInitCap_neg hd.mr_pos hd.V_pos hd.P_pos hcpos hts0 hd.ts_lt hd.T_pos hd.tol_pos hi hneg
+    have e : E = E / c * c := by field_simp
+    rw [sub_zero] at this
+    rw [e]
+    nlinarith
+
+/-- the constants of the working tree (regenerated `Gen.Consts`) put every non-negative request
+    with a positive stay, voltage and period into the fit's domain -/
+theorem fitDomain_gen {E T V P : ℝ} (hE : 0 ≤ E) (hT : 0 < T) (hV : 0 < V) (hP : 0 < P) :
+    FitDomain (Gen.fitCaps.map ratK) (ratK Gen.fitMaxRate) (ratK Gen.fitTransitionSoc)
+      (ratK Gen.fitTol) E T V P := by
+  obtain ⟨h1, h2, h3, h4, h5, -⟩ := gen_fit_consts
+  refine ⟨?_, ?_, ?_, ?_, ?_, hE, hT, hV, hP⟩
+  · intro c hc
+    rw [List.mem_map] at hc
+    obtain ⟨q, hq, rfl⟩ := hc
+    rw [ratK_cast]; exact_mod_cast h1 q hq
+  · rw [ratK_cast]; exact_mod_cast h2
+  · rw [ratK_cast]; exact_mod_cast h3
+  · rw [ratK_cast]; exact_mod_cast h4
+  · rw [ratK_cast]; exact_mod_cast h5
+
+/-- `fit_exact` for `batt_cap_fn` AS IT IS in the working tree (ladder, 32 A, transition SoC and
+    tolerance regenerated from battery.py): for every request `E ≥ 0`, stay of `n ≥ 1` periods,
+    voltage and period, an answer `(cap, init)` satisfies `0 ≤ init ≤ cap`, its free capacity
+    covers `E` up to `tol·cap`, and `Linear2StageBattery(cap, init, 32·V/1000)` charged at 32 A for
+    the `n` periods takes `E` up to `tol·cap` (exactly `E` in the closed-form branch). -/
+theorem fit_exact_gen {E V P cap init : ℝ} (n : Nat) (hn : 0 < n) (hE : 0 ≤ E) (hV : 0 < V)
+    (hP : 0 < P) (h : battCapFnGen E (n : ℝ) V P = .ok (cap, init)) :
+    0 ≤ init ∧ init ≤ cap ∧ E - ratK Gen.fitTol * cap < cap - init ∧
+    ∃ b b', mkTwoStage cap init (ratK Gen.fitMaxRate * V / 1000) 0 (ratK Gen.fitTransitionSoc)
+        .continuous = .ok b ∧
+      chargeN b (ratK Gen.fitMaxRate) V P n = .ok b' ∧
+      |b'.charge - init - E| < ratK Gen.fitTol * cap ∧
+      (ratK Gen.fitTransitionSoc ≤ (closedInitSoc (ratK Gen.fitMaxRate) (ratK Gen.fitTransitionSoc)
+          E (n : ℝ) V P cap).2.2 → b'.charge - init = E ∧ E ≤ cap - init) := by
+  have hd := fitDomain_gen (E := E) (T := (n : ℝ)) (V := V) (P := P) hE (by exact_mod_cast hn) hV hP
+  unfold battCapFnGen at h
+  obtain ⟨-, -, h0, h1, -⟩ := init_le_capacity hd h 0 0 .continuous
+  obtain ⟨h2, h3⟩ := fit_free_capacity hd h
+  obtain ⟨b, b', hb, hch, habs, hex⟩ := fit_exact n hd h
+  exact ⟨h0, h1, h2, b, b', hb, hch, habs, fun hc => ⟨hex hc, h3 hc⟩⟩
+
 /-! non-vacuity: the corpus case of finding F9, `batt_cap_fn(1.0, 100, 208, 5)` (closed-form branch),
     over ℝ with the ladder and constants of the source -/
 
@@ -479,8 +574,8 @@ theorem fitDomain_F9 : FitDomain [8, 24, 40, 60, 85, 100] 32 (4/5) (1/1000000000
 
 /-- the repaired code answers the 1 kWh / 100-period request with the 8 kWh battery from the
     closed-form branch (`init = init_soc·8` kWh) … -/
-theorem fit_F9_closed :
-    ∃ init, battCapFn [8, 24, 40, 60, 85, 100] 32 (4/5) (1/1000000000) 7 1 ((100 : ℕ) : ℝ) 208 5
+theorem fit_F9_closed (fuel : Nat) :
+    ∃ init, battCapFn [8, 24, 40, 60, 85, 100] 32 (4/5) (1/1000000000) fuel 1 ((100 : ℕ) : ℝ) 208 5
         = .ok (8, init) ∧
       (4/5 : ℝ) ≤ (closedInitSoc 32 (4/5) 1 ((100 : ℕ) : ℝ) 208 5 8).2.2 := by
   have hcl : (4/5 : ℝ) ≤ (closedInitSoc 32 (4/5) 1 ((100 : ℕ) : ℝ) 208 5 8).2.2 := by
@@ -501,7 +596,7 @@ theorem fit_F9_closed :
     linarith
   refine ⟨(closedInitSoc 32 (4/5) 1 ((100 : ℕ) : ℝ) 208 5 8).2.2 * 8, ?_, hcl⟩
   rw [battCapFn, if_neg (by norm_num)]
-  have hg : getInitCap 32 (4/5) (1/1000000000) 7 1 ((100 : ℕ) : ℝ) 208 5 8 =
+  have hg : getInitCap 32 (4/5) (1/1000000000) fuel 1 ((100 : ℕ) : ℝ) 208 5 8 =
       .ok ((closedInitSoc 32 (4/5) 1 ((100 : ℕ) : ℝ) 208 5 8).2.2 * 8) := by
     unfold getInitCap
     simp only
@@ -516,9 +611,23 @@ example : ∃ init b b', battCapFn [8, 24, 40, 60, 85, 100] 32 (4/5) (1/10000000
       = .ok (8, init) ∧ 1 ≤ 8 - init ∧
     mkTwoStage 8 init (32 * 208 / 1000) 0 (4/5) .continuous = .ok b ∧
     chargeN b 32 208 5 100 = .ok b' ∧ b'.charge - init = 1 := by
-  obtain ⟨init, h, hcl⟩ := fit_F9_closed
+  obtain ⟨init, h, hcl⟩ := fit_F9_closed 7
   obtain ⟨b, b', hb, hch, -, hex⟩ := fit_exact 100 fitDomain_F9 h
   exact ⟨init, b, b', h, (fit_free_capacity fitDomain_F9 h).2 hcl, hb, hch, hex hcl⟩
+
+/-- the same request answered by `battCapFnGen`, i.e. with the regenerated constants -/
+example : ∃ init, battCapFnGen (1 : ℝ) ((100 : ℕ) : ℝ) 208 5 = .ok (8, init) := by
+  obtain ⟨init, h, -⟩ := fit_F9_closed pyFuel
+  refine ⟨init, ?_⟩
+  unfold battCapFnGen
+  have hc : Gen.fitCaps.map (ratK (K := ℝ)) = [8, 24, 40, 60, 85, 100] := by
+    simp only [Gen.fitCaps, List.map_cons, List.map_nil, ratK_cast]; norm_num
+  rw [hc, ratK_cast, ratK_cast, ratK_cast]
+  have e1 : ((Gen.fitMaxRate : ℚ) : ℝ) = 32 := by norm_num [Gen.fitMaxRate]
+  have e2 : ((Gen.fitTransitionSoc : ℚ) : ℝ) = 4 / 5 := by norm_num [Gen.fitTransitionSoc]
+  have e3 : ((Gen.fitTol : ℚ) : ℝ) = 1 / 1000000000 := by norm_num [Gen.fitTol]
+  rw [e1, e2, e3]
+  exact h
 
 /-- 34 levels suffice for the F9 request on the whole ladder (Python's limit is 1000) -/
 example : battCapFn [8, 24, 40, 60, 85, 100] 32 (4/5) (1/1000000000) (33 + 1) 1 ((100 : ℕ) : ℝ) 208 5
